@@ -164,6 +164,10 @@ def cleanView : View → Bool
   | .suspend _ v => cleanView v
   | .suspense fb nonce vs => cleanStr fb && nonce.isNone && cleanViewL vs
   | .eb vs => cleanViewL vs
+  | .resSuspend _ v => cleanView v
+  | .resRead _ v => cleanView v
+  | .localRead => true
+  | .localAwait _ => true
 def cleanViewL : List View → Bool
   | [] => true
   | v :: vs => cleanView v && cleanViewL vs
@@ -220,11 +224,31 @@ theorem compile_clean (ooo : Bool) : ∀ (n : Nat),
         simp only [viewSize] at h
         simp only [cleanView, Bool.and_eq_true] at hok
         have := ih.2 .direct vs (by omega) hok.2
-        cases c <;> cases ooo <;> simp [compile, cleanOps, cleanOp, this, hok.1.1, cleanNonce, hok.1.2]
+        by_cases hl : localNowL vs = true
+        · cases c <;> simp [compile, hl, cleanOps, cleanOp, hok.1.1]
+        · have hl' : localNowL vs = false := by simpa using hl
+          cases hw : localWaitL vs with
+          | some f => cases c <;> cases ooo <;> simp [compile, hl', hw, cleanOps, cleanOp, hok.1.1, cleanNonce, hok.1.2]
+          | none => cases c <;> cases ooo <;> simp [compile, hl', hw, cleanOps, cleanOp, this, hok.1.1, cleanNonce, hok.1.2]
       | eb vs =>
         simp only [viewSize] at h
         have := ih.2 c vs (by omega) (by simpa [cleanView] using hok)
         cases c <;> simp [compile, cleanOps, cleanOp, this]
+      | resSuspend f v =>
+        simp only [viewSize] at h
+        have hv : cleanView v = true := by simpa [cleanView] using hok
+        cases c with
+        | top =>
+          have := ih.1 .top v (by omega) hv
+          cases ooo <;> simp [compile, cleanOps, cleanOp, this, hbang, cleanNonce]
+        | direct => simpa [compile] using ih.1 .direct v (by omega) hv
+        | nested => simpa [compile] using ih.1 .direct v (by omega) hv
+      | resRead f v =>
+        simp only [viewSize] at h
+        have := ih.1 c v (by omega) (by simpa [cleanView] using hok)
+        cases c <;> simpa [compile] using this
+      | localRead => cases c <;> simp [compile, cleanOps]
+      | localAwait f => cases c <;> simp [compile, cleanOps]
     exact ⟨hV, fun c vs h hok => hL c vs h hok hV⟩
 
 end Leptos.Stream
